@@ -1,12 +1,144 @@
 /-
-  Oracle commands for C01 (stub: owns no commands yet).
+  Oracle for the scheduler (C01 / C02 / C11): trace conformance.
+    sched-trace <variant: good|pinned> <maxRunners> <maxQueue> <defaultSession> <cpu 0|1> <ngpus> | <ev> ; <obs> | <ev> ; <obs> ...
+      -> ok                                   the model can reproduce every observation
+       | diverge <k> <n-states-before> model=<one reachable observation>   first event (0-based) it cannot
+       | bad-op
+  After each environment event the oracle computes every state reachable by internal actions
+  (τ-closure; after `advance` also the time-driven actions), keeps the quiescent ones, and filters
+  by the observation the real scheduler produced (NFA simulation).  Validation only — the theorems
+  are in Properties/C01.lean, C02.lean, C11.lean.  Protocol: notes/SCHED_PROTOCOL.md.
 -/
+import OllamaVerif.Model.Sched
 import Oracle.Util
+import Std.Data.HashSet
 namespace Oracle.C01
-open Oracle
+open OllamaVerif.Sched Oracle
+
+def showList (xs : List String) : String := if xs.isEmpty then "-" else joinWith "," xs
+
+def showObs (s : State) : String :=
+  let ls := (s.loaded.toArray.qsort (fun a b => a.1 < b.1)).toList.map fun (m, r) => s!"{m}:{r}"
+  let rs := (List.range s.nRunners).map fun r =>
+    let x := s.runners r
+    let rc := if x.wrapped then "W" else toString x.refCount
+    s!"{r}:{rc}:{if x.closed then 1 else 0}:{x.closeCount}"
+  let qs := (List.range s.nReqs).map fun q =>
+    let x := s.reqs q
+    let what := match x.gotRunner, x.gotErr with
+      | some r, false => s!"R{r}"
+      | none, true => "E"
+      | some _, true => "B"
+      | none, false => "-"
+    s!"{q}:{x.replies}:{what}"
+  s!"L={showList ls} R={showList rs} Q={showList qs}"
+
+/-- full canonical key of a state (for de-duplication) -/
+def key (s : State) : String :=
+  let rs := (List.range s.nRunners).map fun r => toString (repr (s.runners r))
+  let qs := (List.range s.nReqs).map fun q => toString (repr (s.reqs q))
+  s!"{rs}|{qs}|{s.loaded}|{s.pendingQ}|{s.finishedQ}|{s.expiredQ}|{s.unloadedQ}|{repr s.ppc}|{repr s.cpc}|{s.finishWaiters}|{s.requeuers}|{s.delayed}|{s.loaders}|{s.timerCbs}|{s.maxRunners}"
+
+def fits (cpu : Bool) (ngpus : Nat) : List Fit :=
+  [true, false].flatMap fun a => [true, false].flatMap fun b => [true, false].map fun c =>
+    { cpu := cpu, ngpus := ngpus, cpuFits := a, fitsFull := b, someBusy := c }
+
+def internalActs (cpu : Bool) (ngpus : Nat) (s : State) : List Act :=
+  [.pTake, .pDrainUnloaded, .pNeedsReload, .pUse, .pExpire, .pWaitUnload, .pLoad true, .pLoad false,
+   .cTakeFinished, .cFin, .cTakeExpired, .cExp, .cVram]
+  ++ (match s.ppc with | .eval _ => (fits cpu ngpus).map Act.pLookup | _ => [])
+  ++ s.finishWaiters.map Act.finishSend
+  ++ s.timerCbs.map Act.timerCb
+
+def timeActs (s : State) : List Act :=
+  s.requeuers.map Act.requeue ++ s.delayed.map Act.delayedRequeue
+  ++ ((List.range s.nRunners).filter (fun r => (s.runners r).timerArmed)).map Act.timerFire
+
+def succs (v : Variant) (acts : List Act) (s : State) : List State := acts.filterMap (step v s)
+
+/-- BFS closure with a work-list; `fuel` bounds the number of expansions -/
+partial def closure (v : Variant) (cpu : Bool) (ngpus : Nat) (time : Bool)
+    (work : List State) (seen : Std.HashSet String) (acc : List State) (fuel : Nat) : List State :=
+  match fuel, work with
+  | 0, _ => acc
+  | _, [] => acc
+  | fuel+1, s :: rest =>
+    let acts := internalActs cpu ngpus s ++ (if time then timeActs s else [])
+    let (work', seen') := (succs v acts s).foldl (fun (w, sn) s' =>
+      let k := key s'
+      if sn.contains k then (w, sn) else (s' :: w, sn.insert k)) (rest, seen)
+    closure v cpu ngpus time work' seen' (s :: acc) fuel
+
+def quiescent (v : Variant) (cpu : Bool) (ngpus : Nat) (s : State) : Bool :=
+  (succs v (internalActs cpu ngpus s) s).isEmpty
+
+def dedup (ss : List State) : List State :=
+  (ss.foldl (fun (acc, sn) s => let k := key s; if sn.contains k then (acc, sn) else (s :: acc, sn.insert k))
+    (([] : List State), ({} : Std.HashSet String))).1
+
+inductive Ev
+  | act (a : Act)
+  | advance
+  | nop
+
+def pSess : TP (Option Nat) := do
+  let t ← tok
+  match t with
+  | "-" => pure none
+  | "0" => pure (some 0)
+  | "S" => pure (some 1)
+  | "L" => pure (some 2)
+  | _ => failure
+
+def parseEv : List String → Option Ev
+  | ["submit", m, o, se] => do
+    let m ← m.toNat?; let o ← o.toNat?
+    let se ← (runTP pSess [se])
+    pure (.act (.submit m o se))
+  | ["done", q] => do pure (.act (.done (← q.toNat?)))
+  | ["loaddone", r, ok] => do pure (.act (.loadDone (← r.toNat?) (ok != "0")))
+  | ["ping", r, ok] => do pure (.act (.setPing (← r.toNat?) (ok != "0")))
+  | ["unload", m] => do pure (.act (.explicitUnload (← m.toNat?)))
+  | ["advance", _] => some .advance
+  | ["failstart", _, _] => some .nop
+  | _ => none
+
+/-- split a token list on a separator token -/
+def splitOn (sep : String) (toks : List String) : List (List String) :=
+  let (cur, acc) := toks.foldl (fun (cur, acc) t => if t == sep then ([], cur.reverse :: acc) else (t :: cur, acc)) (([] : List String), ([] : List (List String)))
+  (cur.reverse :: acc).reverse
+
+def runTrace (v : Variant) (cpu : Bool) (ngpus : Nat) (s0 : State) (steps : List (List String)) : String :=
+  let rec go (k : Nat) (cur : List State) : List (List String) → String
+    | [] => "ok"
+    | st :: rest =>
+      match splitOn ";" st with
+      | [evToks, obsToks] =>
+        match parseEv evToks with
+        | none => "bad-op"
+        | some ev =>
+          let obs := joinWith " " obsToks
+          let (starts, time) := match ev with
+            | .act a => (cur.filterMap (fun s => step v s a), false)
+            | .advance => (cur, true)
+            | .nop => (cur, false)
+          let seen := starts.foldl (fun sn s => sn.insert (key s)) ({} : Std.HashSet String)
+          let all := closure v cpu ngpus time starts seen [] 200000
+          let quiet := dedup (all.filter (quiescent v cpu ngpus))
+          let matching := quiet.filter (fun s => showObs s == obs)
+          if matching.isEmpty then
+            let ex := match quiet.head? with | some s => showObs s | none => "<no quiescent state>"
+            s!"diverge {k} {cur.length} model={ex}"
+          else go (k+1) matching rest
+      | _ => "bad-op"
+  go 0 [s0] steps
 
 def handle (toks : List String) : Option String :=
   match toks with
+  | "sched-trace" :: vname :: mr :: mq :: ds :: cpu :: ng :: "|" :: rest => do
+    let v ← (if vname == "good" then some Variant.good else if vname == "pinned" then some Variant.pinned else none)
+    let mr ← mr.toNat?; let mq ← mq.toNat?; let ds ← ds.toNat?; let ng ← ng.toNat?
+    pure (runTrace v (cpu != "0") ng (init mr mq ds) (splitOn "|" rest))
   | _ => none
 
 end Oracle.C01
